@@ -44,7 +44,10 @@ def run_table(ctx, table, config="std", tier=None, per=8192, spec_table=None, ex
     lines = out.strip().splitlines()
     info = json.loads(lines[-1])
     chunks, nrows = info["chunks"], info["rows"]
-    ctx.distinct_rows = getattr(ctx, "distinct_rows", 0) + json.loads(lines[-2])["distinct_nontrivial"]
+    hstats = json.loads(lines[-2])
+    ctx.distinct_rows = getattr(ctx, "distinct_rows", 0) + hstats["distinct_nontrivial"]
+    ctx.row_classes = getattr(ctx, "row_classes", {})
+    ctx.row_classes[table + ":" + config] = hstats.get("nontrivial_by_class", {})
     if nrows == 0:
         raise ToolError("table %s is empty" % table)
     cfg = "SPECIFICATION Spec\nCONSTANTS\n  K = %d\n  Table = \"%s\"\nCHECK_DEADLOCK FALSE\n" % (
@@ -124,7 +127,7 @@ def finish_pure(ctx, rule, exhaustive=False):
     ctx.rule = rule
     ctx.exhaustive = exhaustive and ctx.tier == "thorough"
     ctx.distinct = getattr(ctx, "distinct_rows", 0)
-    ctx.extra = {"tables": getattr(ctx, "table_stats", {})}
+    ctx.extra = {"tables": getattr(ctx, "table_stats", {}), "accepted_rows_by_class": getattr(ctx, "row_classes", {})}
     shutil.rmtree(ctx.work.dir, ignore_errors=True)
     os.makedirs(ctx.work.dir, exist_ok=True)
 
@@ -311,6 +314,13 @@ def c09(ctx):
 def c19(ctx):
     run_mc_pure(ctx, "MC_PnMsg", {}, ["Inv"], tag="MC_PnMsg")      # PnValid / PnEncode theorems used by the judge
     d, f, n = run_table(ctx, "serde", config="serde", per=50000)
+    # vacuity gate: every data format (way) accepted integers, composite values of each type, and round-tripped
+    cl = ctx.row_classes["serde:serde"]
+    need = ["int.form0", "int.primitive", "kind2", "kind3", "kind4", "kind5", "kind6", "kind8", "kind9", "kind12", "kind15"] \
+        + ["int.form%d" % (10 + 10 * w) for w in (2, 3, 4, 5, 6)] + ["roundtrip.way%d" % w for w in (0, 2, 3, 6)]
+    missing = [k for k in need if not cl.get(k)]
+    if missing and not any(p_ == "C19" for p_, c_, r_ in f):
+        raise ToolError("vacuity gate (C19): nothing was ever accepted for %s" % missing)
     table_canary(ctx, d, "serde", lambda rows, rng: _corrupt_at(rows, rng, lambda r: r[0] == 0 and r[5] == 1 and r[2] == 0, 6))
     finish_pure(ctx, "rows (third build of the harness: features serde + serde_repr): each integer type from every JSON integer "
                      "0..65535, negatives, values above u16/u32/u63, floats, strings, arrays (serde_json::from_value) and through "
